@@ -12,14 +12,20 @@ that then fails). The two expressions that size a request from untrusted fields 
 `reserve_arg_reading` / `buf_grows_with_input` / `reserved_le_input` instead of leaving every theorem true.
 
 What holds (every input): each single request is at most 8 bytes per input byte (`reserved_le_input`); the decoded data
-kept alive is at most 24 bytes per store byte PER ENTRY (`decode_kept_le`), hence at most `24 · entries · store`
-(`kept_le_quadratic`).
+kept alive is at most 24 bytes per store byte the entry is CHARGED (`decode_kept_le_used`), and `parse_header` charges
+every entry against a budget that starts as the length of the data section (fix of DEFECT-T11; `Hdr.decodeAllB`), so the
+kept data is LINEAR in the input: at most 24 bytes per store byte for an accepted header (`accepted_kept_le_linear`), at
+most 48 for every byte string, accepted or rejected half way (`kept_le_linear`), everything alive at the end of
+`parse_header` at most 61 bytes per input byte (`live_le`) — inside the limit the differential run applies
+(`harness_limit_holds`).
 
-What does NOT hold: a bound on the kept data that is linear in the input. Index entries may point at the same store
-bytes, and every entry gets its own copy: `n` BIN entries over one `S`-byte store keep `n · S` bytes for an input of
-`16 + 16 n + S` bytes (`overlap_accepted`); `linear_bound_refuted` is the negation of "kept ≤ K · |input|" for every
-K < 2^26, `harness_limit_refuted` the instance the differential run replays on the real code (`alloc04 h 512 8192 7 0 8192`:
-16.4 KB in, 4 MiB kept). rpm itself rejects such headers (hdrblobVerifyInfo: "previous data must not overlap").
+The family that refuted this before the fix — `n` BIN entries pointing at the same `S` store bytes, every entry getting
+its own copy: `n · S` bytes kept for `16 + 16 n + S` bytes of input — is now REFUSED (`overlap_refused`, class `overlap`;
+the instance the differential run replays on the real code is `alloc04 h 512 8192 7 0 8192 0`), and so is every header
+whose entries are charged more than its data section holds (`Hdr.parseHeader_write_overlap`); headers written by
+`from_entries` never are (`Hdr.fromEntries_within_budget`). What the loop did before the fix is kept as a statement about
+a copy of the old loop (`decodeAllOld`, `overlap_old_decoder_accepted`). rpm itself rejects such headers
+(hdrblobVerifyInfo: "previous data must not overlap").
 -/
 namespace RpmVerif.C04
 open RpmVerif.Hdr RpmVerif.Gen RpmVerif
@@ -126,8 +132,13 @@ theorem acct_of_accepted {bs h rest} (hp : parseHeader bs = .ok (h, rest)) :
 theorem decode_kept_le {store ty off cnt d} (h : decode store ty off cnt = .ok d) :
     d.keptBytes ≤ 24 * (store.length - off) := Hdr.decode_kept_le h
 
-/-- **the decoded data alive at the end of the second loop, for every input**: at most 24 · entries · store — a bound
-that is QUADRATIC in the input length, and the best there is (`overlap_accepted`) -/
+/-- data kept by one accepted entry: at most 24 bytes per store byte the budget charges it (`used` of the second loop) -/
+theorem decode_kept_le_used {store ty off cnt d} (h : decode store ty off cnt = .ok d) :
+    d.keptBytes ≤ 24 * decodeUsed store off cnt d ∧ decodeUsed store off cnt d ≤ store.length - off :=
+  ⟨Hdr.decode_kept_le_used h, Hdr.decodeUsed_le h⟩
+
+/-- the decoded data alive at the end of the second loop, for every input: at most 24 · entries · store (the bound that
+was the best there is before the budget; kept because it is the sharper one for headers of one or two entries) -/
 theorem kept_le_quadratic (bs : Bytes) :
     let a := parseHeaderAcct bs
     a.kept ≤ 24 * (a.entries * a.storeCopy) ∧ 16 * a.kept ≤ 24 * (bs.length * bs.length) := by
@@ -162,35 +173,75 @@ theorem kept_le_quadratic (bs : Bytes) :
         simp only [← Nat.mul_assoc]
     _ ≤ 24 * (bs.length * bs.length) := Nat.mul_le_mul_left _ e3
 
-/-- everything alive at the end of `parse_header`: a linear part (buffer, store copy, 48-byte entry values, one
-reservation) + the kept data -/
+/-- **the decoded data alive at the end of the second loop is LINEAR in the input, for EVERY byte string** — accepted,
+or rejected at any entry (also at the one the budget refuses, whose data has been decoded by then): at most 48 bytes per
+byte of the data section, hence per input byte. (24 for what the budget covered + 24 for the entry the loop stopped at.) -/
+theorem kept_le_linear (bs : Bytes) :
+    let a := parseHeaderAcct bs
+    a.kept ≤ 48 * a.storeCopy ∧ a.kept ≤ 48 * bs.length := by
+  have h1 : (parseHeaderAcct bs).kept ≤ 48 * (parseHeaderAcct bs).storeCopy := by
+    have aux : ∀ a, parseHeaderAcct bs = a → a.kept ≤ 48 * a.storeCopy := by
+      intro a ha
+      unfold parseHeaderAcct at ha
+      split at ha
+      · split at ha
+        · simp only [parseBufUpFront, parseReadBounded, if_true] at ha
+          split at ha
+          · split at ha
+            · rename_i raws store h3
+              have := keptOfCalls_le_linear store raws
+              subst ha
+              exact this
+            · subst ha; simp
+          · subst ha; simp
+        · subst ha; simp
+      · subst ha; simp
+    exact aux _ rfl
+  obtain ⟨_, k2, k3, _, _, _⟩ := reserved_le_input bs
+  exact ⟨h1, by omega⟩
+
+/-- **an ACCEPTED header keeps at most 24 bytes of decoded data per byte of its data section** (a `String` value for an
+empty string and its NUL is the worst case), hence per input byte: the entries are charged against the data section
+and what an entry keeps is at most 24 × what it is charged -/
+theorem accepted_kept_le_linear {bs h rest} (hp : parseHeader bs = .ok (h, rest)) :
+    h.keptBytes ≤ 24 * h.dataSize ∧ h.keptBytes ≤ 24 * bs.length := by
+  obtain ⟨res, hr, rfl, wf⟩ := parseHeader_ok hp
+  have := kept_le_of_budget wf
+  rw [wf.dlEq] at this
+  refine ⟨this, ?_⟩
+  simp only [hdrBytes, List.length_append, wf.dlEq]
+  omega
+
+/-- **everything alive at the end of `parse_header`, every byte string**: buffer, store copy, 48-byte entry values, one
+reservation (13 bytes per input byte together) + the kept data (48): linear, and inside the limit of Spec/Alloc.lean -/
 theorem live_le (bs : Bytes) :
     let a := parseHeaderAcct bs
-    a.live ≤ 13 * bs.length + 24 * (a.entries * a.storeCopy) := by
+    a.live ≤ 13 * bs.length + 48 * a.storeCopy ∧ a.live ≤ 61 * bs.length ∧ a.live ≤ AllocSpec.liveLimit bs.length := by
   obtain ⟨k1, k2, k3, k4, _, _⟩ := reserved_le_input bs
-  have h := (kept_le_quadratic bs).1
+  have h := (kept_le_linear bs).1
   have hf : (parseHeaderAcct bs).reserves.foldl Nat.max 0 ≤ 8 * (parseHeaderAcct bs).storeCopy :=
     foldl_max_le (Nat.zero_le _) k4
-  simp only [ParseAcct.live, INDEX_ENTRY_VALUE_BYTES, k1] at *
+  simp only [ParseAcct.live, INDEX_ENTRY_VALUE_BYTES, AllocSpec.liveLimit, k1] at *
   simp only [Nat.max_def]
   split <;> omega
 
 /-- **`Package::parse` / `PackageMetadata::parse`, every byte string**: at most two header parses, each on a suffix of the
-input, so every single request of either is at most 8 bytes per input byte, nothing is sized up front, and the content
-kept is at most the input -/
+input, so every single request of either is at most 8 bytes per input byte, nothing is sized up front, the content
+kept is at most the input, and the decoded data either header keeps is at most 48 bytes per input byte -/
 theorem package_requests_le_input (bs : Bytes) :
     let p := parsePackageAcct bs
     p.headers.length ≤ 2 ∧ p.content ≤ bs.length
       ∧ ∀ a ∈ p.headers, a.upFront = 0 ∧ a.maxSingle ≤ 8 * bs.length ∧ a.buffered ≤ bs.length
-          ∧ 16 * a.kept ≤ 24 * (bs.length * bs.length) := by
+          ∧ 16 * a.kept ≤ 24 * (bs.length * bs.length) ∧ a.kept ≤ 48 * bs.length := by
   have one : ∀ r : Bytes, r.length ≤ bs.length →
       (parseHeaderAcct r).upFront = 0 ∧ (parseHeaderAcct r).maxSingle ≤ 8 * bs.length ∧ (parseHeaderAcct r).buffered ≤ bs.length
-        ∧ 16 * (parseHeaderAcct r).kept ≤ 24 * (bs.length * bs.length) := by
+        ∧ 16 * (parseHeaderAcct r).kept ≤ 24 * (bs.length * bs.length) ∧ (parseHeaderAcct r).kept ≤ 48 * bs.length := by
     intro r hr
     obtain ⟨k1, k2, _, _, _, k6⟩ := reserved_le_input r
     have q := (kept_le_quadratic r).2
+    have q2 := (kept_le_linear r).2
     have := Nat.mul_le_mul hr hr
-    exact ⟨k1, by omega, by omega, by omega⟩
+    exact ⟨k1, by omega, by omega, by omega, by omega⟩
   unfold parsePackageAcct
   split
   · rename_i lb r h0
@@ -224,45 +275,88 @@ theorem package_requests_le_input (bs : Bytes) :
     · simp
   · simp
 
-/-! ### the linear bound is FALSE of the current code: overlapping entries -/
+/-! ### overlapping entries are refused -/
 
-/-- **witness family**: `n` BIN entries that all point at offset 0 of one `S`-byte store are ACCEPTED, and the header
-keeps `n · S` bytes of decoded data for an input of `16 + 16 n + S` bytes -/
-theorem overlap_accepted (n S : Nat) (hn : n < 4294967296) (hS : S < 4294967296) :
+/-- **the family that kept `n · S` bytes before the fix is refused**: `n ≥ 2` BIN entries that all point at offset 0 of
+one `S`-byte store (`S ≥ 1`), an input of `16 + 16 n + S` bytes, are rejected with class `overlap` (what is alive when
+the loop stops is bounded by `kept_le_linear`; two copies of the store in the instance of the examples below) -/
+theorem overlap_refused (n S : Nat) (hn2 : 2 ≤ n) (hS1 : 1 ≤ S) (hn : n < 4294967296) (hS : S < 4294967296) :
     let bs := writeHeader (overlapHeader n S)
-    parseHeader bs = .ok (overlapHeader n S, []) ∧ bs.length = 16 + 16 * n + S
-      ∧ (overlapHeader n S).keptBytes = n * S ∧ (parseHeaderAcct bs).kept = n * S := by
-  have wf := overlap_wf hn hS
-  have hp : parseHeader (writeHeader (overlapHeader n S)) = .ok (overlapHeader n S, []) := by
-    have := parseHeader_write wf (res := [0, 0, 0, 0]) rfl []
+    parseHeader bs = .err "overlap" ∧ bs.length = 16 + 16 * n + S := by
+  have hover : (overlapHeader n S).store.length < usedSum (overlapHeader n S).store (overlapHeader n S).entries := by
+    rw [overlap_used]
+    simp only [overlapHeader, List.length_replicate]
+    calc S < 2 * S := by omega
+      _ ≤ n * S := Nat.mul_le_mul_right _ hn2
+  have hp : parseHeader (writeHeader (overlapHeader n S)) = .err "overlap" := by
+    have := parseHeader_write_overlap (h := overlapHeader n S) (by simp [overlapHeader]) (by simp [overlapHeader]) hn hS
+      (overlap_fields hS) (overlap_dec n S) hover (res := [0, 0, 0, 0]) rfl []
     rwa [List.append_nil, ← writeHeader_eq] at this
-  refine ⟨hp, overlap_length n S, overlap_kept n S, ?_⟩
-  rw [acct_of_accepted hp]
-  exact overlap_kept n S
+  exact ⟨hp, overlap_length n S⟩
 
-/-- **negation of "the kept data is at most K times the input length"**, for every K the format can express -/
-theorem linear_bound_refuted (K : Nat) (hK : K < 67108864) :
-    ∃ bs h, parseHeader bs = .ok (h, []) ∧ K * bs.length < h.keptBytes := by
-  let m := 32 * (K + 1)
-  have hm : m < 4294967296 := by show 32 * (K + 1) < _; omega
-  obtain ⟨hp, hl, hk, _⟩ := overlap_accepted m m hm hm
-  refine ⟨_, _, hp, ?_⟩
-  rw [hl, hk]
-  have h16 : 16 + 16 * m + m ≤ 18 * m := by show 16 + 16 * (32 * (K + 1)) + 32 * (K + 1) ≤ 18 * (32 * (K + 1)); omega
-  calc K * (16 + 16 * m + m) ≤ K * (18 * m) := Nat.mul_le_mul_left _ h16
-    _ = (18 * K) * m := by simp only [Nat.mul_assoc, Nat.mul_comm]
-    _ < m * m := Nat.mul_lt_mul_of_lt_of_le (by show 18 * K < 32 * (K + 1); omega) (Nat.le_refl _) (by show 0 < 32 * (K + 1); omega)
+/-- the single entry of the family is what the budget allows: accepted (the budget is tight, not a blanket refusal) -/
+theorem overlap_one_accepted (S : Nat) (hS : S < 4294967296) :
+    parseHeader (writeHeader (overlapHeader 1 S)) = .ok (overlapHeader 1 S, []) ∧ (overlapHeader 1 S).keptBytes = S := by
+  have wf : HeaderWF (overlapHeader 1 S) :=
+    ⟨by simp [overlapHeader], by simp [overlapHeader], by show (1 : Nat) < _; omega, hS, overlap_fields hS, overlap_dec 1 S, by
+      rw [overlap_used]; simp [overlapHeader]⟩
+  have := parseHeader_write wf (res := [0, 0, 0, 0]) rfl []
+  rw [List.append_nil, ← writeHeader_eq] at this
+  exact ⟨this, by rw [overlap_kept]; omega⟩
 
-/-- **the limit the differential run applies (64 KiB + 128 bytes per input byte) is exceeded by an accepted input of
-16 400 bytes**: 512 entries over one 8 KiB store keep 4 MiB (the case `alloc04 h 512 8192 7 0 8192`) -/
-theorem harness_limit_refuted :
-    ¬ ∀ bs h rest, parseHeader bs = .ok (h, rest) → h.keptBytes ≤ AllocSpec.liveLimit bs.length := by
-  intro hall
-  obtain ⟨hp, hl, hk, _⟩ := overlap_accepted 512 8192 (by decide) (by decide)
-  have := hall _ _ _ hp
-  rw [hl, hk] at this
-  simp only [AllocSpec.liveLimit] at this
+/-- **the budget refuses no header the builder emits**: `from_entries` lays the data out without overlap — the store bytes
+its entries are charged (the region trailer's 16 bytes, every record's encoding) are together at most the data section
+(`Hdr.fromEntries_within_budget`) — so what `Header::write` emits for it parses back to the same header -/
+theorem fromEntries_within_budget {recs : List (Nat × IndexData)} {regionTag : Nat} (ok : RecsOk recs regionTag) :
+    usedSum (fromEntries recs regionTag).store (fromEntries recs regionTag).entries ≤ (fromEntries recs regionTag).store.length
+      ∧ parseHeader (writeHeader (fromEntries recs regionTag)) = .ok (fromEntries recs regionTag, []) := by
+  refine ⟨Hdr.fromEntries_within_budget ok, ?_⟩
+  have := parseHeader_write (fromEntries_wf ok) (res := [0, 0, 0, 0]) rfl []
+  rwa [List.append_nil, ← writeHeader_eq] at this
+
+/-- **the limit the differential run applies (64 KiB + 128 bytes per input byte) holds of every accepted header** — the
+statement `harness_limit_refuted` was the negation of before the fix -/
+theorem harness_limit_holds {bs h rest} (hp : parseHeader bs = .ok (h, rest)) :
+    h.keptBytes ≤ AllocSpec.liveLimit bs.length := by
+  have := (accepted_kept_le_linear hp).2
+  simp only [AllocSpec.liveLimit]
   omega
+
+/-! ### the loop before the fix (a copy of the old definition, kept as a witness of what the budget is for) -/
+
+/-- the second loop of `parse_header` as it was before the budget: every entry decoded on its own -/
+def decodeAllOld (store : Bytes) : List (Nat × Nat × Nat × Nat) → Out (List Entry)
+  | [] => pure []
+  | (tag, ty, off, cnt) :: r => do
+    let d ← decode store ty off cnt
+    let es ← decodeAllOld store r
+    pure (⟨tag, d, off, cnt⟩ :: es)
+
+/-- **what the old loop did with the family, and what the new one does**: the old loop ACCEPTS `n` entries over one
+`S`-byte store and keeps `n · S` bytes of decoded data (for every `n`: no bound linear in `16 + 16 n + S` exists); the
+loop with the budget refuses the same index as soon as `n ≥ 2`, `S ≥ 1` -/
+theorem overlap_old_decoder_accepted (n S : Nat) :
+    decodeAllOld (overlapHeader n S).store ((overlapHeader n S).entries.map Entry.raw) = .ok (overlapHeader n S).entries
+      ∧ (overlapHeader n S).keptBytes = n * S
+      ∧ (2 ≤ n → 1 ≤ S → decodeAll (overlapHeader n S).store ((overlapHeader n S).entries.map Entry.raw) = .err "overlap") := by
+  refine ⟨?_, overlap_kept n S, ?_⟩
+  · have key : ∀ es : List Entry, (∀ e ∈ es, decode (overlapHeader n S).store e.data.typeCode e.off e.cnt = .ok e.data) →
+        decodeAllOld (overlapHeader n S).store (es.map Entry.raw) = .ok es := by
+      intro es
+      induction es with
+      | nil => intro _; rfl
+      | cons e es ih =>
+        intro hd
+        simp only [List.map_cons, Entry.raw, decodeAllOld]
+        rw [hd e (by simp)]; simp only [Out.bind_ok]
+        rw [ih (fun e' m => hd e' (by simp [m]))]; rfl
+    exact key _ (overlap_dec n S)
+  · intro hn2 hS1
+    apply decodeAllB_overlap (overlap_dec n S)
+    rw [overlap_used]
+    simp only [overlapHeader, List.length_replicate]
+    calc S < 2 * S := by omega
+      _ ≤ n * S := Nat.mul_le_mul_right _ hn2
 
 /-! ### non-vacuity -/
 -- an INT64 entry claiming 2^32 − 1 items over an 8-byte store at offset 0: REJECTED, and the reservation made before
@@ -278,8 +372,19 @@ example : parseHeaderAcct ([142, 173, 232, 1, 0, 0, 0, 0, 0, 0, 0, 1, 0, 0, 0, 8
     = ⟨0, 24, 8, 1, [8], 8⟩ := by decide +kernel
 -- an intro that claims a 4 GiB store in a 16-byte input: nothing is buffered, nothing reserved
 example : parseHeaderAcct [142, 173, 232, 1, 0, 0, 0, 0, 0, 0, 0, 0, 255, 255, 255, 255] = ⟨0, 0, 0, 0, [], 0⟩ := by decide +kernel
--- the overlap family at a size the kernel can run: 3 entries over a 4-byte store keep 12 bytes
-example : (parseHeaderAcct (writeHeader (overlapHeader 3 4))).kept = 12 ∧ (writeHeader (overlapHeader 3 4)).length = 68 := by decide +kernel
+-- the overlap family at a size the kernel can run: 3 entries over a 4-byte store are refused at the second entry, with
+-- two copies of the store alive (before the fix: accepted, 12 bytes kept); a single entry is accepted
+example : (parseHeader (writeHeader (overlapHeader 3 4))).isErr = true ∧ (parseHeaderAcct (writeHeader (overlapHeader 3 4))).kept = 8
+    ∧ (parseHeaderAcct (writeHeader (overlapHeader 3 4))).reserves.length = 2 ∧ (writeHeader (overlapHeader 3 4)).length = 68 := by decide +kernel
+example : (parseHeader (writeHeader (overlapHeader 1 4))).isErr = false ∧ (parseHeaderAcct (writeHeader (overlapHeader 1 4))).kept = 4 := by decide +kernel
+-- two entries that do NOT overlap (offsets 0 and 4 of an 8-byte store, 4 bytes each): accepted, the budget is used up exactly
+example : (parseHeader ([142, 173, 232, 1, 0, 0, 0, 0, 0, 0, 0, 2, 0, 0, 0, 8,
+      0, 0, 3, 232, 0, 0, 0, 7, 0, 0, 0, 0, 0, 0, 0, 4, 0, 0, 3, 233, 0, 0, 0, 7, 0, 0, 0, 4, 0, 0, 0, 4,
+      1, 2, 3, 4, 5, 6, 7, 8])).isErr = false := by decide +kernel
+-- the same two entries shifted onto each other by one byte (offsets 0 and 3, 4 and 5 bytes): refused
+example : (parseHeader ([142, 173, 232, 1, 0, 0, 0, 0, 0, 0, 0, 2, 0, 0, 0, 8,
+      0, 0, 3, 232, 0, 0, 0, 7, 0, 0, 0, 0, 0, 0, 0, 4, 0, 0, 3, 233, 0, 0, 0, 7, 0, 0, 0, 3, 0, 0, 0, 5,
+      1, 2, 3, 4, 5, 6, 7, 8])).isErr = true := by decide +kernel
 -- what a reservation would be with the count taken as it is (the shape `reserve_arg_reading` excludes)
 example : reserveOf 4294967295 8 = 8 := by decide
 
